@@ -3,6 +3,8 @@
 package verifx
 
 import (
+	"os"
+	"strings"
 	"fmt"
 	"time"
 )
@@ -29,6 +31,29 @@ func BenchChains() {
 }
 
 func Bench() {
+	if os.Getenv("BENCH_REFCTX") != "" {
+		d := c10DataG(4).RefContextJSONLD("other")
+		fmt.Println(d)
+		r := Validate(c10Pd, d)
+		fmt.Println("err:", r.ErrString(), "report bytes:", len(r.Report), strings.Count(r.Report, "focusNode"))
+		return
+	}
+	if os.Getenv("BENCH_ANCHOR") != "" {
+		n := 0
+		for _, m := range YAMLMutants(Seeds()[0].Profile) {
+			if strings.Contains(m.Desc, "anchored") {
+				n++
+				if n <= 3 {
+					fmt.Println("==", m.Desc)
+					fmt.Println(m.Text)
+					r := Validate(m.Text, Seeds()[0].Data)
+					fmt.Println("->", firstLine(r.ErrString()), len(r.Report))
+				}
+			}
+		}
+		fmt.Println("anchored mutants:", n)
+		return
+	}
 	BenchChains()
 	return
 	fs := PropFormulas(2, []int{1, 2, 3}, 3)
